@@ -379,6 +379,11 @@ def run_harness(exe, prop, seed, cases, nshards=None, tier='quick', args=(), env
                 cls, fn, excerpt = parse_crash(st, rc)
                 out['viol'].append({'key': '%s:%s:%s' % (kp, cls, fn), 'case': idx, 'detail': excerpt[-2500:], 'kind': 'crash', 'proc_start': start})
             out['restarts'] += 1
+            # a tree that fails almost every case: the violations are on record, more of the same only costs time (each CPU-budget firing
+            # costs its whole budget, and the harness's own three-firings stop does not survive a restart)
+            if len(out['viol']) >= 12 or sum(1 for v in out['viol'] if v['key'].endswith(':case:cpu-budget') or v['key'].endswith('non-termination')) >= 3:
+                out['trunc'] = True
+                break
             if idx < 0 or out['restarts'] > max_restarts:
                 out['trunc'] = True
                 break
